@@ -1,7 +1,6 @@
 SPECIFICATION Spec
 CONSTANTS
   MaxSigs = 4
-  Spaced = TRUE
   Tools = {"none", "key", "eth", "manual_ok", "manual_bad"}
 INVARIANT AuthorizedIffK
 INVARIANT EmitB
